@@ -38,6 +38,21 @@ pub fn beat() {
     }
 }
 
+/// The machinery itself found that it cannot be trusted (nondeterminism it
+/// does not own, a prefix that does not replay): exit code 2, never a verdict.
+pub fn machinery_error(msg: &str) -> ! {
+    use std::sync::atomic::Ordering;
+    if IN_CHILD.load(Ordering::Relaxed) {
+        let out = std::io::stdout();
+        let mut l = out.lock();
+        let _ = writeln!(l, "MACHINERY {}", msg.replace('\n', " "));
+        let _ = l.flush();
+        std::process::exit(3);
+    }
+    eprintln!("machinery error: {msg}");
+    std::process::exit(2);
+}
+
 #[derive(Default)]
 pub struct JsonAcc {
     pub counters: BTreeMap<String, u64>,
@@ -290,6 +305,12 @@ fn drive_child(
                     last_exec = None;
                 } else if let Some(rest) = line.strip_prefix("EXEC ") {
                     last_exec = serde_json::from_str(rest).ok();
+                } else if let Some(rest) = line.strip_prefix("MACHINERY ") {
+                    // the engine itself is unsound here (e.g. an execution
+                    // that does not replay identically): never a verdict
+                    eprintln!("machinery error reported by a worker: {rest}");
+                    let _ = child.kill();
+                    std::process::exit(2);
                 }
             }
             Err(std::sync::mpsc::RecvTimeoutError::Timeout) => {
